@@ -565,17 +565,38 @@ theorem stepPred_rdt (v : Variant) (s : Script α) (st : St α) : (stepPred v s 
   · exact h1
   · rw [h2, h1]
 
+omit [LT α] [DecidableRel (fun a b : α => a < b)] [Sub α] [Neg α] [OfScientific α] in
+theorem R.bind_rdt (r : R α) (f : St α → R α) (hf : ∀ st, (f st).st.rdt = st.rdt) :
+    (r.bind f).st.rdt = r.st.rdt := by
+  cases r <;> simp [R.bind, hf]
+
 theorem tailEarly_rdt (s : Script α) (ke : α) (st : St α) : (tailEarly s ke st).st.rdt = st.rdt := by
   unfold tailEarly
-  simp only [R.st_bind]
-  (repeat' split) <;>
-    simp [stepExportTO_rdt, stepEnergyCompute_rdt, stepSosCompute_rdt, storeIf_rdt, stepExportState_rdt]
+  rw [R.bind_rdt]
+  · split <;> simp [stepExportTO_rdt, stepExportState_rdt]
+  · intro st
+    rw [R.bind_rdt, stepEnergyCompute_rdt]
+    intro st
+    rw [R.bind_rdt, stepEnergyCompute_rdt, storeIf_rdt]
+    intro st
+    split
+    · rw [R.bind_rdt, stepSosCompute_rdt, storeIf_rdt]
+      intro st; simp
+    · simp [storeIf_rdt]
 
 theorem tailLate_rdt (s : Script α) (ke : α) (st : St α) : (tailLate s ke st).st.rdt = st.rdt := by
   unfold tailLate
-  simp only [R.st_bind]
-  (repeat' split) <;>
-    simp [stepExportTO_rdt, stepEnergyCompute_rdt, stepSosCompute_rdt, storeIf_rdt, stepExportState_rdt]
+  rw [R.bind_rdt, stepEnergyCompute_rdt]
+  intro st
+  rw [R.bind_rdt, stepEnergyCompute_rdt]
+  intro st
+  rw [R.bind_rdt]
+  · split <;> simp [stepSosCompute_rdt]
+  · intro st
+    rw [R.bind_rdt]
+    · split <;> simp [stepExportTO_rdt]
+    · intro st
+      simp [storeIf_rdt, stepExportState_rdt]
 
 omit [Sub α] [Neg α] [OfScientific α] in
 /-- `rdt` after the three steps of the integration proper, when they all succeed:
@@ -584,7 +605,203 @@ theorem stepIntegrate_rdt (s : Script α) (smt : SMType) (st : St α) (h : integ
     (stepIntegrate s smt st).st.rdt = if s.apoF < s.apF then s.apoF else s.apF := by
   obtain ⟨h1, h2, h3⟩ := h
   unfold stepIntegrate
-  rcases h2 with h2 | h2 <;> simp [h1, h2, h3, Act.thrown, Res.thrown]
+  rcases h2 with h2 | h2 <;> simp [h1, h2, h3, Act.thrown, Res.thrown] <;> (split <;> simp_all)
+
+/-! ### the event log only grows -/
+
+omit [LT α] [DecidableRel (fun a b : α => a < b)] [Sub α] [Neg α] [OfScientific α] in
+theorem R.bind_prefix (r : R α) (f : St α → R α) (l : List (Event α)) (h : l <+: r.st.ev)
+    (hf : ∀ st, st.ev <+: (f st).st.ev) : l <+: (r.bind f).st.ev := by
+  cases r with
+  | next st => exact h.trans (hf st)
+  | ret c st => exact h
+  | thr m st => exact h
+
+macro "prefix_cases" : tactic =>
+  `(tactic| ((repeat' split) <;> simp_all [List.prefix_append, List.append_assoc]))
+
+omit [LT α] [DecidableRel (fun a b : α => a < b)] [Sub α] [Neg α] [OfScientific α] in
+theorem stepInit_prefix (s : Script α) (st : St α) : st.ev ++ [.init] <+: (stepInit s st).st.ev := by
+  unfold stepInit; prefix_cases
+
+omit [LT α] [DecidableRel (fun a b : α => a < b)] [Sub α] [Neg α] [OfScientific α] in
+theorem stepCheckBounds_prefix (s : Script α) (st : St α) : st.ev <+: (stepCheckBounds s st).st.ev := by
+  unfold stepCheckBounds; prefix_cases
+
+omit [LT α] [DecidableRel (fun a b : α => a < b)] [Sub α] [Neg α] [OfScientific α] in
+theorem stepSosCompute_prefix (s : Script α) (b : Bool) (st : St α) :
+    st.ev <+: (stepSosCompute s b st).st.ev := by
+  unfold stepSosCompute; prefix_cases
+
+omit [LT α] [DecidableRel (fun a b : α => a < b)] [Sub α] [Neg α] [OfScientific α] in
+theorem stepExportTO_prefix (s : Script α) (o : Out) (st : St α) : st.ev <+: (stepExportTO s o st).st.ev := by
+  unfold stepExportTO; prefix_cases
+
+omit [LT α] [DecidableRel (fun a b : α => a < b)] [Sub α] [Neg α] [OfScientific α] in
+theorem stepEnergyCompute_prefix (has : Bool) (a : Act) (sg : Stage) (e : Event α) (st : St α) :
+    st.ev <+: (stepEnergyCompute has a sg e st).st.ev := by
+  unfold stepEnergyCompute; prefix_cases
+
+omit [Sub α] [Neg α] [OfScientific α] in
+theorem stepIntegrate_prefix (s : Script α) (smt : SMType) (st : St α) :
+    st.ev <+: (stepIntegrate s smt st).st.ev := by
+  unfold stepIntegrate; prefix_cases
+
+omit [LT α] [DecidableRel (fun a b : α => a < b)] [Sub α] [Neg α] [OfScientific α] in
+theorem storeIf_prefix (c : Bool) (o : Out) (st : St α) : st.ev <+: (storeIf c o st).ev := by
+  unfold storeIf; split <;> simp [List.prefix_append]
+
+theorem stepPredSos_prefix (s : Script α) (st : St α) : st.ev <+: (stepPredSos s st).st.ev := by
+  unfold stepPredSos
+  split
+  · apply R.bind_prefix _ _ _ (stepSosCompute_prefix s false st)
+    intro st; simp [List.prefix_append]
+  · simp
+
+theorem stepPredOp_prefix (v : Variant) (s : Script α) (st : St α) : st.ev <+: (stepPredOp v s st).st.ev := by
+  unfold stepPredOp
+  split
+  · simp
+  · simp only []
+    split
+    · simp [List.prefix_append]
+    · split
+      · simp [List.prefix_append]
+      · have h1 : st.ev <+: (log st (.pred s.smflag (predSmt (predK v s)))).ev := by
+          simp [List.prefix_append]
+        apply R.bind_prefix _ _ _ (h1.trans (stepExportTO_prefix s .kpred _))
+        intro st; simp
+
+theorem stepPred_prefix (v : Variant) (s : Script α) (st : St α) : st.ev <+: (stepPred v s st).st.ev := by
+  unfold stepPred
+  exact R.bind_prefix _ _ _ (stepPredSos_prefix s st) (stepPredOp_prefix v s)
+
+theorem pre_prefix (v : Variant) (s : Script α) (st : St α) : st.ev ++ [.init] <+: (pre v s st).st.ev := by
+  unfold pre
+  apply R.bind_prefix _ _ _ (stepInit_prefix s st)
+  intro st
+  apply R.bind_prefix _ _ _ (stepCheckBounds_prefix s st)
+  intro st
+  split
+  · exact stepPred_prefix v s st
+  · split
+    · simp
+    · exact stepIntegrate_prefix s _ st
+
+theorem tailEarly_prefix (s : Script α) (ke : α) (st : St α) : st.ev <+: (tailEarly s ke st).st.ev := by
+  unfold tailEarly
+  have h0 : st.ev <+: (stepExportState st).ev := by
+    simp [stepExportState, List.prefix_append, List.append_assoc]
+  apply R.bind_prefix
+  · split
+    · exact h0.trans (stepExportTO_prefix s .k _)
+    · simpa using h0
+  · intro st
+    apply R.bind_prefix _ _ _ (stepEnergyCompute_prefix _ _ _ _ st)
+    intro st
+    apply R.bind_prefix _ _ _ ((storeIf_prefix _ _ st).trans (stepEnergyCompute_prefix _ _ _ _ _))
+    intro st
+    split
+    · apply R.bind_prefix _ _ _ ((storeIf_prefix _ _ st).trans (stepSosCompute_prefix _ _ _))
+      intro st; simp [List.prefix_append]
+    · simpa using storeIf_prefix _ _ st
+
+theorem tailLate_prefix (s : Script α) (ke : α) (st : St α) : st.ev <+: (tailLate s ke st).st.ev := by
+  unfold tailLate
+  apply R.bind_prefix _ _ _ (stepEnergyCompute_prefix _ _ _ _ st)
+  intro st
+  apply R.bind_prefix _ _ _ (stepEnergyCompute_prefix _ _ _ _ st)
+  intro st
+  apply R.bind_prefix
+  · split
+    · exact stepSosCompute_prefix _ _ _
+    · simp
+  · intro st
+    apply R.bind_prefix
+    · split
+      · exact stepExportTO_prefix _ _ _
+      · simp
+    · intro st
+      have h0 : st.ev <+: (stepExportState st).ev := by
+        simp [stepExportState, List.prefix_append, List.append_assoc]
+      simpa using h0.trans ((storeIf_prefix _ _ _).trans ((storeIf_prefix _ _ _).trans (storeIf_prefix _ _ _)))
+
+theorem body_prefix (v : Variant) (s : Script α) (st : St α) : st.ev ++ [.init] <+: (body v s st).st.ev := by
+  unfold body
+  apply R.bind_prefix _ _ _ (pre_prefix v s st)
+  intro st
+  split
+  · exact tailLate_prefix _ _ _
+  · exact tailEarly_prefix _ _ _
+
+/-- the first thing `integrate` does with the behaviour: construct it, give it the policy, initialise it -/
+theorem integrate_prefix (v : Variant) (s : Script α) :
+    [.ctor, .pol s.policy, .init] <+: (integrate v s).st.ev := by
+  have h := body_prefix v s (st0 s)
+  unfold integrate
+  split <;> rename_i heq <;> simp only [heq, R.st_next, R.st_ret, R.st_thr] at h
+  · simpa [st0] using h
+  · simpa [st0] using h
+  · have : st0 s |>.ev ++ [Event.init] <+: (log _ Event.min).ev := h.trans (by simp [List.prefix_append])
+    simpa [st0] using this
+
+/-- every event of a run -/
+theorem integrate_events (v : Variant) (s : Script α) :
+    AllEv (fun e => PreEv v s e ∨ TailEv s e ∨ e = .ctor ∨ e = .pol s.policy ∨ e = .min) (integrate v s).st := by
+  have h := body_all (fun e => PreEv v s e ∨ TailEv s e ∨ e = .ctor ∨ e = .pol s.policy ∨ e = .min) v s (st0 s)
+    (fun e he => by rcases he with he | he <;> simp [he]) (by simp [st0, AllEv])
+  unfold integrate
+  split <;> rename_i heq <;> simp only [heq, always, R.sat_next, R.sat_ret, R.sat_thr] at h
+  · exact h
+  · exact h
+  · simp_all [AllEv]
+
+/-! ### what each step is when it succeeds -/
+
+omit [LT α] [DecidableRel (fun a b : α => a < b)] [Sub α] [Neg α] [OfScientific α] in
+theorem stepInit_ok (s : Script α) (st : St α) (h : s.init = .ok) : stepInit s st = .next (log st .init) := by
+  simp [stepInit, h, Act.thrown]
+
+omit [LT α] [DecidableRel (fun a b : α => a < b)] [Sub α] [Neg α] [OfScientific α] in
+theorem stepCheckBounds_ok (s : Script α) (st : St α) (h : ¬ cbRaises s) :
+    stepCheckBounds s st = .next (log (if s.oob ≠ .inside ∧ s.policy = .warning then log (log st .cb) .warn
+      else log st .cb) .cbdone) := by
+  unfold cbRaises at h
+  push_neg at h
+  obtain ⟨h1, h2⟩ := h
+  have h3 : ¬ (s.oob ≠ .inside ∧ s.policy = .strict) := fun hh => h1 hh.1 hh.2
+  unfold stepCheckBounds
+  rcases Act.eq_cases s.cb with hc | hc | hc | hc | hc <;> simp_all [Act.thrown]
+
+omit [LT α] [DecidableRel (fun a b : α => a < b)] [Sub α] [Neg α] [OfScientific α] in
+theorem stepSosCompute_ok (s : Script α) (b : Bool) (st : St α) (h : s.sos.quiet) :
+    stepSosCompute s b st = .next (log st (if b then .sos1 else .sos0)) := by
+  unfold stepSosCompute
+  rcases h with h | h <;> simp [h, Act.thrown]
+
+omit [LT α] [DecidableRel (fun a b : α => a < b)] [Sub α] [Neg α] [OfScientific α] in
+theorem stepExportTO_ok (s : Script α) (o : Out) (st : St α) (h : toExported s) :
+    stepExportTO s o st = .next (log (log st .gto) (.write o)) := by
+  obtain ⟨h1, h2⟩ := h
+  unfold stepExportTO
+  rcases h1 with h1 | h1 <;> simp [h1, h2, Act.thrown]
+
+omit [LT α] [DecidableRel (fun a b : α => a < b)] [Sub α] [Neg α] [OfScientific α] in
+theorem stepEnergyCompute_ok (has : Bool) (a : Act) (sg : Stage) (e : Event α) (st : St α)
+    (h : has = true → a.quiet) : stepEnergyCompute has a sg e st = .next (if has then log st e else st) := by
+  unfold stepEnergyCompute
+  cases has
+  · simp
+  · rcases h rfl with h | h <;> simp [h, Act.thrown]
+
+omit [Sub α] [Neg α] [OfScientific α] in
+theorem stepIntegrate_ok (s : Script α) (smt : SMType) (st : St α) (h : integrationOk s) :
+    stepIntegrate s smt st = .next
+      { ev := st.ev ++ [.ap st.rdt, .int s.smflag smt, .apo s.apF],
+        rdt := if s.apoF < s.apF then s.apoF else s.apF, msg := st.msg } := by
+  obtain ⟨h1, h2, h3⟩ := h
+  unfold stepIntegrate
+  rcases h2 with h2 | h2 <;> simp [h1, h2, h3, Act.thrown, Res.thrown, log]
 
 end steps
 
